@@ -246,7 +246,8 @@ Proof. intros I. destruct o; cbn [step].
       pose proof (heartbeat_check_close_count c s1 I1) as H. pose proof (heartbeat_check_no_hang c s1) as Hh.
       pose proof (heartbeat_check_stable c s1) as [_ M2].
       destruct (heartbeat_check c s1) as [[[s2 cbs2] hang2] r]. cbn [fst snd] in *. subst.
-      cbn [fst snd]. rewrite n_close_app, H1, H. apply delta_trans; auto. Qed.
+      cbn [fst snd]. rewrite n_close_app, H1, H. apply delta_trans; auto.
+  - unfold do_close_handle. repeat dmatch; cbn [fst snd]; rewrite delta_same; reflexivity. Qed.
 
 Definition all_cbs (xs : list out) : list cb := flat_map (fun x : out => snd (fst x)) xs.
 
